@@ -17,8 +17,9 @@ computations, not of their values.
    on the shared loop (`compressed_cells_eq`: GGLWE, GGSW, switching / automorphism keys), for the routines with their scratch
    temporary as the Rust runs them (`matrix_temporary_irrelevant`), the tensor key (`tensor_key_compressed_eq`), the
    GGLWE→GGSW key (`g2g_subkeys_eq`) and the compressed blind-rotation key (`brk_subkeys_eq`).
-   LWE: no compressed encryption routine exists; `lwe_compress_decompress` is the inverse statement; the real
-   `decompress_lwe` only accepts dimension 1 — `lwe_decompress_partial`, `lwe_decompress_counterexample` (finding).
+   LWE: no compressed encryption routine exists; `lwe_compress_decompress` / `lwe_decompress` (the routine with its
+   base2k/size assertions, every LWE dimension) are the inverse statement; `lwe_decompress_old_assert_counterexample`
+   documents the repaired finding (the old layout assertion refused every dimension other than 1).
    Not reachable: compressed circuit-bootstrapping key (module not compiled). -/
 -/
 import Poulpy.Lemmas.CoreCmp
@@ -503,27 +504,51 @@ theorem lwe_compress_decompress (b nl size kxe : Nat) (stream : List Nat) (fille
 example : (Sampling.vecFillUniform 3 3 2 [1, 2, 3, 4, 5, 6, 7]).isSome ∧
     ((Sampling.vecFillUniform 3 3 2 [1, 2, 3, 4, 5, 6, 7]).bind (fun f => Core.lweEncryptSk 3 2 5 f.1 [2] 3 [1, -1] (-1))).isSome := by decide
 
-/-- **`decompress_lwe` as it is, LWE dimension 1**: the statement of `lwe_compress_decompress` holds for the routine with its
-layout assertion when the receiver has dimension 1 — the only dimension the assertion lets through. -/
-theorem lwe_decompress_partial (b size kxe : Nat) (stream : List Nat) (filled : Col) (rest : List Nat)
-    (hf : Sampling.vecFillUniform b (1 + 1) size stream = some (filled, rest)) (hfl : filled.length = size)
+/-- **`decompress_lwe` as it is (after repair e6c90e8), every LWE dimension**: for every `lwe_encrypt_sk` ciphertext with
+`source_xa = Source::new(seed)` and a receiver of the same radix and number of limbs, `decompress_lwe (bodies, seed)` returns that
+ciphertext, limb for limb; a receiver with another radix or another number of limbs is refused (panic outcome). -/
+theorem lwe_decompress (b nl size kxe : Nat) (stream : List Nat) (filled : Col) (rest : List Nat)
+    (hf : Sampling.vecFillUniform b (nl + 1) size stream = some (filled, rest)) (hfl : filled.length = size)
     (pt : List Int) (ptB : Nat) (sk : Poly) (e : Int) (ct : Col) (h : Core.lweEncryptSk b size kxe filled pt ptB sk e = some ct) :
-    Core.decompressLweRust b 1 (Core.lweBodies ct) stream = some ct := by
-  unfold Core.decompressLweRust
-  rw [if_neg (by decide)]
-  exact lwe_compress_decompress b 1 size kxe stream filled rest hf hfl pt ptB sk e ct h
+    Core.decompressLweRust b size b nl (Core.lweBodies ct) stream = some ct ∧
+    ∀ resB resSize, resB ≠ b ∨ resSize ≠ size → Core.decompressLweRust resB resSize b nl (Core.lweBodies ct) stream = none := by
+  have hlen : (Core.lweBodies ct).length = size := by
+    have hd := lwe_compress_decompress b nl size kxe stream filled rest hf hfl pt ptB sk e ct h
+    unfold Core.decompressLwe at hd
+    cases hv : Sampling.vecFillUniform b (nl + 1) (Core.lweBodies ct).length stream with
+    | none => simp [hv] at hd
+    | some r =>
+      simp only [hv, Option.map_some, Option.some.injEq] at hd
+      have h1 : ct.length = (Core.lweBodies ct).length := by simp [Core.lweBodies]
+      unfold Core.lweEncryptSk at h
+      split at h
+      · simp at h
+      · simp only [] at h
+        split at h
+        · simp at h
+        · simp only [Option.some.injEq] at h
+          rw [← h1, ← h]; simp
+  constructor
+  · unfold Core.decompressLweRust
+    rw [if_neg (by rw [hlen]; simp)]
+    exact lwe_compress_decompress b nl size kxe stream filled rest hf hfl pt ptB sk e ct h
+  · intro resB resSize hne
+    unfold Core.decompressLweRust
+    rw [if_pos (by rw [hlen]; exact hne)]
 
-example : ((Sampling.vecFillUniform 3 2 2 [1, 2, 3, 4, 5, 6, 7]).bind (fun f => Core.lweEncryptSk 3 2 5 f.1 [2] 3 [1] (-1))).isSome := by decide
+/-- non-vacuity: dimension 2, two limbs; accepted with the object's radix and size, refused with another radix or size -/
+example : ((Sampling.vecFillUniform 3 3 2 [1, 2, 3, 4, 5, 6, 7]).bind (fun f => Core.lweEncryptSk 3 2 5 f.1 [2] 3 [1, -1] (-1))) = some [[3, -2, -1], [0, 1, 2]] ∧
+    Core.decompressLweRust 3 2 3 2 (Core.lweBodies [[3, -2, -1], [0, 1, 2]]) [1, 2, 3, 4, 5, 6, 7] = some [[3, -2, -1], [0, 1, 2]] ∧
+    Core.decompressLweRust 4 2 3 2 (Core.lweBodies [[3, -2, -1], [0, 1, 2]]) [1, 2, 3, 4, 5, 6, 7] = none ∧
+    Core.decompressLweRust 3 3 3 2 (Core.lweBodies [[3, -2, -1], [0, 1, 2]]) [1, 2, 3, 4, 5, 6, 7] = none := by decide
 
-/-- **finding**: for an LWE of dimension 2 (any dimension other than 1) the real `decompress_lwe` panics on a compressed ciphertext
-whose decompression is well defined and equal to the standard ciphertext: `LWECompressed::n()` is the ring degree of its body
-buffer (1), which the layout assertion compares with the receiver's LWE dimension. -/
-theorem lwe_decompress_counterexample :
+/-- **documentation of the repaired finding (the OLD assertion)**: with `assert_eq!(res.lwe_layout(), other.lwe_layout())` an LWE of
+dimension 2 was refused although its decompression is well defined and equal to the standard ciphertext. -/
+theorem lwe_decompress_old_assert_counterexample :
     ∃ (ct : Col), (Sampling.vecFillUniform 3 3 2 [1, 2, 3, 4, 5, 6, 7]).bind (fun f => Core.lweEncryptSk 3 2 5 f.1 [2] 3 [1, -1] (-1)) = some ct ∧
       Core.decompressLwe 3 2 (Core.lweBodies ct) [1, 2, 3, 4, 5, 6, 7] = some ct ∧
-      Core.decompressLweRust 3 2 (Core.lweBodies ct) [1, 2, 3, 4, 5, 6, 7] = none := by
+      Core.decompressLweOldAssert 3 2 (Core.lweBodies ct) [1, 2, 3, 4, 5, 6, 7] = none := by
   refine ⟨[[3, -2, -1], [0, 1, 2]], by decide, by decide, by decide⟩
-
 
 /-! ### the GGLWE→GGSW key: two levels of branching -/
 
